@@ -360,6 +360,10 @@ static int gnutls_verify_sha_pem(jwt_t *jwt, const char *head,
 	case JWT_ALG_ES256K:
 	case JWT_ALG_ES384:
 	case JWT_ALG_ES512:
+		/* R and S each have the size of the key, nothing else */
+		if ((unsigned int)sig_len != 2 * ((jwt->key->bits + 7) / 8))
+			VERIFY_ERROR("ECDSA mismatch with sig len"); // LCOV_EXCL_LINE
+
 		/* XXX Gotta be a better way. */
 		if (sig_len == 64) {
 			r.size = 32;
